@@ -97,6 +97,8 @@ class FakeMicrogridApi:
         self.tx: dict[int, Any] = {}
         self.calls: list[dict[str, Any]] = []
         self.receivers_created: dict[int, int] = {}
+        self.components_failures = 0      # the next N calls of components() raise an ApiClientError
+        self.failure_times: list[int] = []
         self.outcome_fn: Callable[[int, float], tuple[str, int]] = lambda cid, w: ("ok", 0)
         for c in sorted(components, key=lambda c: c.component_id):
             ch: Broadcast[Any] = Broadcast(name=f"api-data-{c.component_id}")
@@ -104,6 +106,11 @@ class FakeMicrogridApi:
             self.tx[c.component_id] = ch.new_sender()
 
     async def components(self) -> set[Component]:
+        if self.components_failures > 0:
+            self.components_failures -= 1
+            self.failure_times.append(self.sim.now_us)
+            self.sim.fault("api_components_fails")
+            raise FakeApiError("components() failed (fake API down)")
         return self._components
 
     async def connections(self, *a: Any, **k: Any) -> set[Connection]:
